@@ -24,6 +24,14 @@ CLAIMS = {
   text="TLC enumerates derived constructor / infix operator x arity x argument shape (incl. Python literals to be promoted, reflected operators, varargs vs list); each built formula is validated by TLC to denote Derived!Named(name) of its arguments under every interpretation of the argument symbols (exhaustive for Bool and BV width <= 3).",
   note="Derived.tla states the mathematical function per constructor (bvsmod by the mathematical definition, min/max by order, etc.); Int/Real arguments range over carriers",
   tech=TECH + "TLC-enumerated constructions replayed on FormulaManager/FNode operators, validated by TLC against the named function", ref="DESIGN.md 3 C06"),
+ "C05": dict(
+  text="TLC enumerates (term, substitution map) pairs incl. nested/shadowing binders, sub-term keys, overlapping keys, capturing replacements; both real substituters and the function-interpretation path are run and every result is validated by TLC against SubstContract: exact equality with the reference MGS/MSS functions of Substitution.tla, the semantic substitution lemma (Eval) for capture-free symbol maps, interpreted-symbol elimination.",
+  note="Substitution.tla reference semantics; capture-freedom decided conservatively; interpretations bounded by carriers",
+  tech=TECH + "TLC-enumerated (term,map) pairs replayed on MGSubstituter/MSSubstituter, results validated by TLC against reference MGS/MSS and the substitution lemma", ref="DESIGN.md 3 C05"),
+ "C12": dict(
+  text="TLC-generated terms (all operators, quantifier shapes incl. shadowing, custom/composite sorts, Boolean terms nested in theory terms) are analysed by the real oracles; TLC validates free symbols, atoms, qf-ness, sorts, and all six size measures against the structural definitions in SmtSyntaxFns.tla, plus the two semantic consequences (value depends only on reported free symbols; truth is a function of reported atoms) with Eval.",
+  note="SmtSyntaxFns.tla definitions; semantic consequences over bounded interpretations",
+  tech=TECH + "TLC-generated terms analysed by pySMT oracles, reports validated by TLC against structural definitions and Eval", ref="DESIGN.md 3 C12"),
 }
 NA_REASON = "check under construction in this round (planned with the same TLA+/TLC technique, see DESIGN.md)"
 
